@@ -6,7 +6,8 @@ import BiotiteModel.Model.C12Loc
                   always-safe (`A-Za-z0-9_.-~`) and not in `safe` becomes `%XX` (upper-case hex).
 `unquoteB t`    — `urllib.parse.unquote_to_bytes` as a left-to-right scanner (bytes; the final
                   UTF-8 decoding of `unquote` is outside the model).
-`createLine`    — `GFFFile._create_line` (repaired: `type` is quoted like `seqid`/`source`).
+`createLine`    — `GFFFile._create_line` (repaired: `type` is quoted like `seqid`/`source`; a seqid
+                  starting with `#` is rejected; attribute values go through `_quote_value`).
 `parseLine`     — `GFFFile.__getitem__` on one line; text columns are returned as UTF-8 bytes.
 `gffIndex`      — `GFFFile._index_entries`.
 The set `safe` (`_NOT_QUOTED`) is a parameter: theorems instantiate it with the table regenerated
@@ -40,6 +41,13 @@ def quoteB (safe : List Nat) (bs : Bytes) : Str := bs.flatMap (quoteByte safe)
 
 /-- `quote(s, safe=…)`. -/
 def quote (safe : List Nat) (s : Str) : Str := quoteB safe (utf8 s)
+
+/-- `_quote_value(value)`: `quote`, then a blank at the end is written `%20` (the reader strips
+the line).  Stated on bytes: the quoted string ends in a blank exactly when the last byte is 32
+and 32 is safe; if 32 is not safe the last three characters are `%20` anyway. -/
+def quoteV (safe : List Nat) (s : Str) : Str :=
+  let bs := utf8 s
+  if bs.getLast? = some 32 then quoteB safe bs.dropLast ++ ['%', '2', '0'] else quoteB safe bs
 
 /-- bytes of one (unescaped) character. -/
 def charBytes (c : Char) : Bytes := (String.utf8EncodeChar c).map (·.toNat)
@@ -81,13 +89,14 @@ def createLine (safe : List Nat) (e : GffEntry Str) : Except Err Str :=
   let type := quote safe (strip e.type)
   if seqid.isEmpty ∨ source.isEmpty ∨ type.isEmpty then .error .valueError
   else if seqid.head? = some '>' then .error .valueError
+  else if seqid.head? = some '#' then .error .valueError
   else
     let score := match e.score with | some t => t | none => ['.']
     let strand := match e.strand with | some false => ['+'] | some true => ['-'] | none => ['.']
     let phase := match e.phase with | some p => showInt p | none => ['.']
     let attrs : Str :=
       if e.attrs.isEmpty then ['.']
-      else intercalateC ';' (e.attrs.map (fun kv => quote safe kv.1 ++ '=' :: quote safe kv.2))
+      else intercalateC ';' (e.attrs.map (fun kv => quote safe kv.1 ++ '=' :: quoteV safe kv.2))
     .ok (intercalateC tab [seqid, source, type, showInt e.start, showInt e.stop, score, strand, phase, attrs])
 
 /-- `GFFFile._parse_attributes`; keys/values as bytes. -/
